@@ -310,7 +310,7 @@ def corrupt(r: random.Random, src: str) -> str:
 def main() -> None:
     run = Run("C10", "exploration")
     run.forbid()
-    run.require_vo(["Lang/Static.v", "Lang/StaticProofs.v", "Lang/MacroStatic.v", "Lang/MacroStaticProofs.v"])
+    run.require_vo(["Lang/Static.v", "Lang/StaticProofs.v", "Lang/Domain.v", "Lang/DomainProofs.v", "Lang/MacroStatic.v", "Lang/MacroStaticProofs.v"])
     run.props("Props/C10.v")
     q = run.tier == "quick"
     r = random.Random(f"C10-{run.seed}")
@@ -353,7 +353,9 @@ def main() -> None:
     stat = run_driver([[A("static"), PERF, a, []] for _, _, a in inj_asts])
     sfirst = None
     for (cls, txt, _), sp in zip(inj_asts, stat):
-        good = sp.get("r") == "ok" and sp.get("scoped") is False and sp.get("meaning") is False
+        # (and the extracted predicates agree with the theorem C10_domain_exactly: meaning = scoped and events)
+        good = sp.get("r") == "ok" and sp.get("scoped") is False and sp.get("meaning") is False and \
+            sp.get("meaning") == (bool(sp.get("scoped")) and bool(sp.get("events")))
         run.count("K-static (well_scoped rejects injected construct):" + ("ok" if good else "DIFF"))
         if not good and sfirst is None:
             sfirst = (cls, txt, sp)
@@ -424,6 +426,16 @@ def main() -> None:
         run.count(f"K-static valid programs: compiler {'accepts' if acc else 'rejects'}, spec {sp.get('r')}")
         if acc and sp.get("r") == "err":
             run.fail("accepted-but-meaningless-for-the-spec", f"the compiler accepts a program the specification model rejects: {sp.get('msg')}",
+                     {"source": t, "model": sp})
+    # ... and the two predicates of C10_domain_exactly hold of what the compiler accepts, evaluated directly
+    vstat = run_driver([[A("static"), PERF, a, []] for _, a in withast])
+    for (t, a), sp in zip(withast, vstat):
+        if not vres[t]["ok"]:
+            continue
+        good = sp.get("r") == "ok" and sp.get("scoped") is True and sp.get("events") is True and sp.get("meaning") is True
+        run.count("K-static accepted programs are well scoped and have events:" + ("ok" if good else "DIFF"))
+        if not good:
+            run.fail("accepted-but-not-well-scoped", f"the compiler accepts a program that is not well scoped or has a part without an event: {sp}",
                      {"source": t, "model": sp})
     run.sample({"kind": inv[0][0], "source": inv[0][1]})
     run.assume("the ANTLR front end is not modelled: 'for every input text' is explored, not proved")
